@@ -257,6 +257,9 @@ def decode_op(bs):
     if k in ("string", "estring"):
         return [k, wrgen.text(bits, 10, hot="ÿ")]
     s = wrgen.text(bits, 8, hot="ÿ")
+    if bits.below(24) == 0:
+        # a large field (hundreds of padding bytes when padded; a sure rejection when not)
+        return [k, s, bits.pick((253, 254, 255, 256, 300, 1000, 64009)), bits.below(4) != 0]
     return [k, s, max(0, len(s) + bits.pick(LEN_DELTA)), bits.below(2) == 1]
 
 
